@@ -1,9 +1,226 @@
-/- Driver operations for C16 (stub: to be filled by the property's model). -/
+/- Driver operations for C16: the OCO model (`Model/OCO.lean`) at `Rat` and `Float`. Mathlib-free.
+
+* `ogd`, `ada`  — whole-history runs (`List.foldl` of the model's update; every intermediate state is
+  returned). `scalar = "rat"`: exact arithmetic, `rsqrt` is an oracle through `Float` whose outputs are
+  checked against the specification `r > 0 ∧ |r² x − 1| ≤ 2⁻⁴⁸` (exactly, in `Rat`); `scalar = "float"`: IEEE
+  binary64 with `rsqrt x = 1 / sqrt x`.
+* `fd_b`        — the matrix `_fd_update_fn` hands to the SVD, from a given state.
+* `fd_step`     — one `fdUpdate` at `Float`, the SVD being supplied by the caller (constant oracle); the
+  residuals of `SvdSpec` for the supplied factors are computed against the model's own `fdB` and returned.
+-/
 import PrecondVerif.Kit.Proto
+import PrecondVerif.Model.OCO
 
 namespace PrecondVerif.Drv.C16
-open Lean PrecondVerif.Proto
+open Lean PrecondVerif.Proto PrecondVerif.OCO
 
-def ops : List Op := []
+/-! ### exact conversions between `Float` and `Rat` -/
+
+/-- exact value of a finite float -/
+def floatToRat? (x : Float) : Option Rat :=
+  let bits := x.toBits.toNat
+  let sign : Rat := if bits / 2 ^ 63 = 1 then -1 else 1
+  let ex : Nat := (bits / 2 ^ 52) % 2048
+  let man : Nat := bits % 2 ^ 52
+  let full : Nat := 2 ^ 52 + man
+  if ex = 2047 then none
+  else if ex = 0 then some (sign * (man : Rat) * (2 : Rat) ^ (-1074 : Int))
+  else some (sign * (full : Rat) * (2 : Rat) ^ ((ex : Int) - 1075))
+
+def ratAbs (q : Rat) : Rat := if q < 0 then -q else q
+
+/-- nearest-ish float of a rational (exact whenever `q` has at most 53 significant bits and is in range) -/
+def ratToFloat (q : Rat) : Float :=
+  if q = 0 then 0.0 else
+  let a := ratAbs q
+  let e : Int := (Nat.log2 a.num.toNat : Int) - (Nat.log2 a.den : Int)
+  let sh : Int := 63 - e
+  let scaled : Rat := a * (2 : Rat) ^ sh
+  let m : Nat := scaled.floor.toNat
+  let f := (Float.ofNat m).scaleB (-sh)
+  if q < 0 then -f else f
+
+/-- `rsqrt` oracle for the exact run: computed in binary64, returned as the exact rational of the result
+(0 when the float result is not finite, which the specification check then rejects). -/
+def rsqrtRat (x : Rat) : Rat :=
+  match floatToRat? (1.0 / Float.sqrt (ratToFloat x)) with
+  | some r => r
+  | none => 0
+
+/-- run-time check of the kernel specification `r > 0 ∧ r² x ≈ 1` -/
+def rsqrtSpecOk (x : Rat) : Bool :=
+  let r := rsqrtRat x
+  decide (0 < r) && decide (ratAbs (r * r * x - 1) ≤ (2 : Rat) ^ (-48 : Int))
+
+def rsqrtFloat (x : Float) : Float := 1.0 / Float.sqrt x
+
+/-! ### JSON codecs -/
+
+structure Codec (α : Type) where
+  dec : Json → R α
+  enc : α → Json
+
+def ratC : Codec Rat := ⟨asRat, ratToJson⟩
+def fltC : Codec Float := ⟨asFloat, floatToJson⟩
+
+def vecOfList {α : Type} [Zero α] (n : Nat) (l : List α) : Vec α n :=
+  let a := l.toArray
+  fun i => a.getD i.1 0
+
+def listOfVec {α : Type} {n : Nat} (v : Vec α n) : List α := (List.finRange n).map v
+
+def getVec {α : Type} [Zero α] (c : Codec α) (j : Json) (key : String) (n : Nat) : R (Vec α n) := do
+  let l ← asListOf c.dec (← field j key)
+  if l.length ≠ n then throw s!"{key}: expected {n} entries, got {l.length}"
+  pure (vecOfList n l)
+
+def asMat {α : Type} [Zero α] (c : Codec α) (j : Json) (what : String) (m n : Nat) : R (Mat α m n) := do
+  let rows ← asListOf (asListOf c.dec) j
+  if rows.length ≠ m then throw s!"{what}: expected {m} rows, got {rows.length}"
+  if rows.any (fun r => r.length ≠ n) then throw s!"{what}: expected rows of length {n}"
+  let a := (rows.map fun r => r.toArray).toArray
+  pure fun i j => (a.getD i.1 #[]).getD j.1 0
+
+def vecJson {α : Type} {n : Nat} (c : Codec α) (v : Vec α n) : Json := listToJson c.enc (listOfVec v)
+def matJson {α : Type} {m n : Nat} (c : Codec α) (A : Mat α m n) : Json :=
+  listToJson (fun i => vecJson c (A i)) (List.finRange m)
+
+def getVecs {α : Type} [Zero α] (c : Codec α) (j : Json) (key : String) (n : Nat) : R (List (Vec α n)) := do
+  let rows ← asListOf (asListOf c.dec) (← field j key)
+  if rows.any (fun r => r.length ≠ n) then throw s!"{key}: expected vectors of length {n}"
+  pure (rows.map (vecOfList n))
+
+/-- all intermediate states of a fold (after each step) -/
+def trace {σ β : Type} (f : σ → β → σ) : σ → List β → List σ
+  | _, [] => []
+  | s, b :: bs => let s' := f s b; s' :: trace f s' bs
+
+def parseAlgo (s : String) : R Algo :=
+  match s with
+  | "RFD_SON" => .ok .rfdSon
+  | "FD_SON" => .ok .fdSon
+  | "ADA_FD" => .ok .adaFd
+  | "S_ADA" => .ok .sAda
+  | _ => .error s!"bad algorithm {s}"
+
+/-! ### OGD / AdaGrad -/
+
+def ogdOp {α : Type} [Zero α] [One α] [Add α] [Sub α] [Mul α] [Div α]
+    (c : Codec α) (rsqrt : α → α) (specOk : α → Bool) (j : Json) : R Json := do
+  let n ← getNat j "n"
+  let lr ← c.dec (← field j "lr")
+  let δ ← c.dec (← field j "delta")
+  let gs ← getVecs c j "gs" n
+  let states := trace (ogdUpdate rsqrt lr δ) (ogdInit n) gs
+  -- the final state of the trace is `ogdRun` (same fold); it is recomputed through the model's own entry point
+  let final := ogdRun rsqrt lr δ gs
+  let ok := states.all fun s => specOk (s.t + δ)
+  pure (obj [
+    ("states", listToJson (fun (s : OgdState α n) => obj [("w", vecJson c s.w), ("t", c.enc s.t)]) states),
+    ("final", obj [("w", vecJson c final.w), ("t", c.enc final.t)]),
+    ("rsqrt_ok", Json.bool ok)])
+
+def adaOp {α : Type} [Zero α] [One α] [Add α] [Sub α] [Mul α] [Div α] [BEq α]
+    (c : Codec α) (rsqrt : α → α) (specOk : α → Bool) (j : Json) : R Json := do
+  let n ← getNat j "n"
+  let lr ← c.dec (← field j "lr")
+  let δ ← c.dec (← field j "delta")
+  let gs ← getVecs c j "gs" n
+  let states := trace (adaUpdate rsqrt lr) (adaInit n δ) gs
+  let final := adaRun rsqrt lr δ gs
+  let ok := states.all fun s => (listOfVec s.diagH).all fun h => specOk (nzOr1 h)
+  pure (obj [
+    ("states", listToJson (fun (s : AdaState α n) => obj [("w", vecJson c s.w), ("diag_h", vecJson c s.diagH)]) states),
+    ("final", obj [("w", vecJson c final.w), ("diag_h", vecJson c final.diagH)]),
+    ("rsqrt_ok", Json.bool ok)])
+
+/-! ### sketched methods (Float) -/
+
+def getFdState (j : Json) (k n : Nat) : R (FdState Float k n) := do
+  let s ← field j "state"
+  let w ← getVec fltC s "w" n
+  let t ← asFloat (← field s "t")
+  let alpha ← asFloat (← field s "alpha")
+  let P ← asMat fltC (← field s "P") "P" (k + 1) n
+  let e ← getVec fltC s "e" (k + 1)
+  pure { w := w, t := t, alpha := alpha, P := P, e := e }
+
+def fdStateJson {k n : Nat} (s : FdState Float k n) : Json :=
+  obj [("w", vecJson fltC s.w), ("t", floatToJson s.t), ("alpha", floatToJson s.alpha),
+       ("P", matJson fltC s.P), ("e", vecJson fltC s.e)]
+
+def fmax (a b : Float) : Float := if a < b then b else if b < a then a else if a == a then a else b
+
+def maxAbs (l : List Float) : Float := l.foldl (fun acc x => fmax acc x.abs) 0.0
+
+/-- residuals of `SvdSpec B o`: reconstruction, row-orthonormality of `Vt`, column-orthonormality of `U`
+(max-abs entries), and the order conditions -/
+def svdResiduals {m n : Nat} (B : Mat Float m n) (o : SvdOut Float m n) : Float × Float × Float × Bool :=
+  let recon := maxAbs ((List.finRange m).flatMap fun i => (List.finRange n).map fun j =>
+    B i j - sumFin fun l => o.U i l * o.s l * o.Vt l j)
+  let vo := maxAbs ((List.finRange m).flatMap fun a => (List.finRange m).map fun b =>
+    (sumFin fun j => o.Vt a j * o.Vt b j) - (if a = b then 1.0 else 0.0))
+  let uo := maxAbs ((List.finRange m).flatMap fun a => (List.finRange m).map fun b =>
+    (sumFin fun i => o.U i a * o.U i b) - (if a = b then 1.0 else 0.0))
+  let sl := listOfVec o.s
+  let ordered := sl.all (fun x => decide (0.0 ≤ x)) &&
+    (sl.zip sl.tail).all (fun p => decide (p.2 ≤ p.1))
+  (recon, vo, uo, ordered)
+
+def fdCommon (j : Json) : R (Σ k n : Nat, Algo × Float × FdState Float k n × Vec Float n) := do
+  let m ← getNat j "sketch_size"
+  let n ← getNat j "n"
+  if m = 0 then throw "sketch_size must be positive"
+  let k := m - 1
+  let algo ← parseAlgo (← getStr j "algo")
+  let lr ← asFloat (← field j "lr")
+  let st ← getFdState j k n
+  let g ← getVec fltC j "g" n
+  pure ⟨k, n, algo, lr, st, g⟩
+
+def ops : List Op := [
+  ("ogd", fun j => do
+    match (← getStr j "scalar") with
+    | "rat" => ogdOp ratC rsqrtRat rsqrtSpecOk j
+    | "float" => ogdOp fltC rsqrtFloat (fun _ => true) j
+    | s => throw s!"bad scalar {s}"),
+  ("ada", fun j => do
+    match (← getStr j "scalar") with
+    | "rat" => adaOp ratC rsqrtRat rsqrtSpecOk j
+    | "float" => adaOp fltC rsqrtFloat (fun _ => true) j
+    | s => throw s!"bad scalar {s}"),
+  ("fd_init", fun j => do
+    let m ← getNat j "sketch_size"
+    let n ← getNat j "n"
+    if m = 0 then throw "sketch_size must be positive"
+    let δ ← asFloat (← field j "delta")
+    pure (obj [("state", fdStateJson (fdInit (m - 1) n δ))])),
+  ("fd_b", fun j => do
+    let ⟨_, _, algo, lr, st, g⟩ ← fdCommon j
+    pure (obj [("B", matJson fltC (fdB Float.sqrt rsqrtFloat algo lr st g))])),
+  ("fd_step", fun j => do
+    let ⟨k, n, algo, lr, st, g⟩ ← fdCommon j
+    let sv ← field j "svd"
+    let U ← asMat fltC (← field sv "U") "U" (k + 1) (k + 1)
+    let s ← getVec fltC sv "s" (k + 1)
+    let Vt ← asMat fltC (← field sv "Vt") "Vt" (k + 1) n
+    let o : SvdOut Float (k + 1) n := { U := U, s := s, Vt := Vt }
+    let svd : SvdFn Float (k + 1) n := fun _ => o
+    let B := fdB Float.sqrt rsqrtFloat algo lr st g
+    let (recon, vo, uo, ordered) := svdResiduals B o
+    let st' := fdUpdate svd Float.sqrt rsqrtFloat algo lr st g
+    let rows := sketchRows st'
+    pure (obj [
+      ("state", fdStateJson st'),
+      ("sigma_min", floatToJson (fdSigmaMin svd Float.sqrt rsqrtFloat algo lr st g)),
+      ("rho", floatToJson (fdRho svd Float.sqrt rsqrtFloat algo lr st g)),
+      ("alpha_factor", floatToJson (alphaFactor algo)),
+      ("grad_input", vecJson fltC (gradInput (sketchFactor Float.sqrt rsqrtFloat algo (st.t + 1) lr) g)),
+      ("last_row", vecJson fltC (rows (Fin.last k))),
+      ("rows", matJson fltC rows),
+      ("b_scale", floatToJson (maxAbs ((List.finRange (k + 1)).flatMap fun i => listOfVec (B i)))),
+      ("svd_recon", floatToJson recon), ("svd_v_ortho", floatToJson vo), ("svd_u_ortho", floatToJson uo),
+      ("svd_ordered", Json.bool ordered)]))
+]
 
 end PrecondVerif.Drv.C16
